@@ -3,7 +3,7 @@
    pyxel/util/misc.py (get_dtype) on every run. *)
 From Coq Require Import ZArith List Bool Reals Lia.
 From Flocq Require Import Core BinarySingleNaN.
-From PyxelV Require Import Lib.B64 Model.Adc Proofs.AdcChain Proofs.AdcFloat Proofs.AdcRange Proofs.AdcSar Proofs.AdcWitness.
+From PyxelV Require Import Lib.B64 Model.Adc Proofs.AdcChain Proofs.AdcFloat Proofs.AdcRange Proofs.AdcSar Proofs.AdcSar0 Proofs.AdcWitness.
 From PyxelGen Require Import Gen_C16.
 Import ListNotations.
 Open Scope Z_scope.
@@ -81,6 +81,15 @@ Theorem C16_sar_monotone_partial :
   sar_code w bits vmax x = Some cx -> sar_code w bits vmax y = Some cy -> cx <= cy.
 Proof. exact sar_monotone. Qed.
 Print Assumptions C16_sar_monotone_partial.
+
+(* ---- the noisy variant with zero strengths and zero noises reproduces the noise-free converter
+   exactly: for EVERY voltage (NaN, infinities included), every finite reference voltage >= 0 *)
+Theorem C16_sar_noise0 :
+  forall (w bits : Z) (vmax x : b64),
+  1 <= bits <= 53 -> is_finite vmax = true -> (0 <= B2R vmax)%R ->
+  sar0_code w bits vmax x = sar_code w bits vmax x.
+Proof. exact sar0_eq_sar. Qed.
+Print Assumptions C16_sar_noise0.
 
 (* non-vacuity: the hypotheses are met by an ordinary setting, and the conclusion is not trivial *)
 Example C16_hyps_satisfiable :
